@@ -1,5 +1,7 @@
 """C08 runner: executes one lifecycle history with the REAL meson commands (one process per command) on a
-two-project tree (top + subprojects/sub) and reads the persisted state back after every step.
+tree of a top-level project and its subprojects (top + subprojects/sub + any further ones, e.g. subprojects/alt:
+projects may declare options of the same name, with the same definition, yielding or not) and reads the persisted
+state back after every step.
 
 A history is a list of commands (JSON-able dicts):
 
@@ -74,6 +76,22 @@ def option_line(name: str, sp: dict) -> str:
 PDO_TOP = ['shared=b', 'sub:warning_level=2']     # project('top', default_options: …)
 PDO_SUB = ['s_fix=frompdo']                       # project('sub', default_options: …)
 SPCALL = ['s_fix2=fromcall']                      # subproject('sub', default_options: …)
+# further subprojects (any project name but 'top' / 'sub'): project(p, default_options:) / subproject(p, default_options:)
+PDO_MORE: T.Dict[str, T.List[str]] = {'alt': ['a_fix=frompdo']}
+SPCALL_MORE: T.Dict[str, T.List[str]] = {'alt': ['a_fix2=fromcall']}
+
+
+def projects(files: T.Dict[str, T.Any]) -> T.List[str]:
+    """'top', 'sub', then the further subprojects in the order of the dict (= order of the subproject() calls)"""
+    return ['top', 'sub'] + [p for p in files if p not in ('top', 'sub')]
+
+
+def pdo_of(proj: str) -> T.List[str]:
+    return PDO_TOP if proj == 'top' else PDO_SUB if proj == 'sub' else PDO_MORE.get(proj, [])
+
+
+def spcall_of(proj: str) -> T.List[str]:
+    return SPCALL if proj == 'sub' else SPCALL_MORE.get(proj, [])
 
 
 def _dol(l: T.List[str]) -> str:
@@ -90,13 +108,15 @@ def write_tree(src: str, files: T.Dict[str, T.Dict[str, dict]], fstate: T.Option
                style: str = 'empty') -> None:
     """(re)write option files and the meson.build files that print every option of the current files.
     `fstate[proj]`: 'options' (meson.options), 'txt' (meson_options.txt) or None (no option file)."""
-    fstate = fstate or {'top': 'options', 'sub': 'options'}
-    eff = {p: (files[p] if fstate[p] is not None else {}) for p in ('top', 'sub')}
-    for proj, d in (('top', src), ('sub', os.path.join(src, 'subprojects', 'sub'))):
+    projs = projects(files)
+    fstate = dict({p: 'options' for p in projs}, **(fstate or {}))
+    eff = {p: (files[p] if fstate[p] is not None else {}) for p in projs}
+    for proj in projs:
+        d = src if proj == 'top' else os.path.join(src, 'subprojects', proj)
         os.makedirs(d, exist_ok=True)
         names = list(eff[proj])
         # default_options only name options the option file declares (plus builtin / sub:builtin entries)
-        own = PDO_TOP if proj == 'top' else PDO_SUB
+        own = pdo_of(proj)
         pdo = [x for x in own if ':' in x.split('=')[0] or x.split('=')[0] in names]
         body = [f"project('{proj}', meson_version: '>=1.1', default_options: {_dol(pdo)})\n"]
         for n in names + [BUILTIN]:
@@ -106,8 +126,9 @@ def write_tree(src: str, files: T.Dict[str, T.Dict[str, dict]], fstate: T.Option
                 body.append("if get_option('boom')\n  error('boom')\nendif\n")
             if 'boom_late' in names:
                 body.append("if get_option('boom_late')\n  meson.add_postconf_script('false')\nendif\n")
-            spc = [x for x in SPCALL if x.split('=')[0] in eff['sub']]
-            body.append(f"subproject('sub', default_options: {_dol(spc)})\n")
+            for sp_ in projs[1:]:
+                spc = [x for x in spcall_of(sp_) if x.split('=')[0] in eff[sp_]]
+                body.append(f"subproject('{sp_}', default_options: {_dol(spc)})\n")
         with open(os.path.join(d, 'meson.build'), 'w') as f:
             f.write(''.join(body))
         for st, fn in FILE_NAMES.items():
@@ -147,7 +168,7 @@ def child_env() -> T.Dict[str, str]:
     return env
 
 
-MSG_RE = re.compile(r'^(?:sub\| )?Message: OPT (top|sub):(\S+) = (.*)$')
+MSG_RE = re.compile(r'^(?:\w+\| )?Message: OPT (\w+):(\S+) =(?: (.*))?$')
 
 
 def canon(v: T.Any) -> str:
@@ -190,7 +211,7 @@ def read_intro(bd: str) -> T.Optional[T.Dict[str, str]]:
         return {'!' + type(e).__name__: ''}
 
 
-def read_core(bd: str) -> T.Optional[dict]:
+def read_core(bd: str, subs: T.Sequence[str] = ('sub',)) -> T.Optional[dict]:
     """unpickle coredata.dat with the implementation's own classes and ask the store for effective values"""
     fn = os.path.join(bd, 'meson-private', 'coredata.dat')
     if not os.path.isfile(fn):
@@ -208,7 +229,7 @@ def read_core(bd: str) -> T.Optional[dict]:
     yl: T.Dict[str, bool] = {}
     keys = [(k, ('top' if k.subproject == '' else k.subproject) + ':' + k.name)
             for k in st.options if st.is_project_option(k)]
-    keys += [(OptionKey(BUILTIN, ''), 'top:' + BUILTIN), (OptionKey(BUILTIN, 'sub'), 'sub:' + BUILTIN)]
+    keys += [(OptionKey(BUILTIN, ''), 'top:' + BUILTIN)] + [(OptionKey(BUILTIN, p), p + ':' + BUILTIN) for p in subs]
     for k, name in keys:
         try:
             eff[name] = canon(st.get_value_for(k))
@@ -236,8 +257,8 @@ def real_introspect(bd: str) -> T.Optional[T.Dict[str, str]]:
         return {'!' + type(e).__name__: ''}
 
 
-def observe(bd: str) -> dict:
-    return {'core': read_core(bd), 'cmdline': read_cmdline(bd), 'intro': read_intro(bd)}
+def observe(bd: str, subs: T.Sequence[str] = ('sub',)) -> dict:
+    return {'core': read_core(bd, subs), 'cmdline': read_cmdline(bd), 'intro': read_intro(bd)}
 
 
 def run_history(init_files: T.Dict[str, T.Dict[str, dict]], hist: T.List[dict], introspect_steps: T.Iterable[int] = (),
@@ -247,7 +268,8 @@ def run_history(init_files: T.Dict[str, T.Dict[str, dict]], hist: T.List[dict], 
     src = os.path.join(root, 'src')
     bd = os.path.join(root, 'b')
     files = {p: dict(d) for p, d in init_files.items()}
-    fstate: T.Dict[str, T.Optional[str]] = {'top': 'options', 'sub': 'options'}
+    fstate: T.Dict[str, T.Optional[str]] = {p: 'options' for p in projects(files)}
+    subs = projects(files)[1:]
     style = 'empty'
     isteps = set(introspect_steps)
     out = []
@@ -286,9 +308,9 @@ def run_history(init_files: T.Dict[str, T.Dict[str, dict]], hist: T.List[dict], 
                         m = MSG_RE.match(line.strip())
                         if m:
                             # an array is printed as ['x', 'y']; canonical form [x, y]
-                            msgs[m.group(1) + ':' + m.group(2)] = m.group(3).replace("'", '')
+                            msgs[m.group(1) + ':' + m.group(2)] = (m.group(3) or '').replace("'", '')
                     ob['msgs'] = msgs
-            ob.update(observe(bd))
+            ob.update(observe(bd, subs))
             if i in isteps:
                 ob['introspect'] = real_introspect(bd)
             out.append(ob)
